@@ -76,6 +76,13 @@ impl<const SENDER: bool> RawChannel<SENDER> {
         self.claimed = true;
     }
 
+    /// Marks the channel end as closed without notifying the broker.
+    ///
+    /// Used when a claim has been refused: there is nothing to close then.
+    pub(crate) fn set_closed(&mut self) {
+        self.state = State::Closed;
+    }
+
     fn begin_close(&mut self) -> Result<CloseChannelEndFuture, Error> {
         self.client
             .close_channel_end(self.cookie, Self::channel_end(), self.claimed)
